@@ -380,7 +380,7 @@ var supportedSignatureAlgorithms = []SignatureScheme{
 var signatureAlgorithms = map[SignatureScheme]SigAndHash{
 	PSSWithSHA256:          {signatureRSA, hashSHA256},
 	ECDSAWithP256AndSHA256: {signatureECDSA, hashSHA256},
-	Ed25519:                {signatureEd25519, hashSHA256}, // TODO: is it correct
+	Ed25519:                {signatureEd25519, hashIntrinsic},
 	PSSWithSHA384:          {signatureRSA, hashSHA384},
 	PSSWithSHA512:          {signatureRSA, hashSHA512},
 	PKCS1WithSHA256:        {signatureRSA, hashSHA256},
